@@ -310,8 +310,7 @@ class Transformer:
                     keep_eras.append(era)
                 else:
                     count += 1
-            if keep_eras:
-                results[name] = keep_eras
+            results[name] = keep_eras
 
         logging.info("Removed %s zone eras before year %04d", count,
                      self.start_year)
@@ -341,8 +340,7 @@ class Transformer:
                     count += 1
                 # the next era's start year is this era's until_year
                 start_year = era['untilYear']
-            if keep_eras:
-                results[name] = keep_eras
+            results[name] = keep_eras
 
         logging.info("Removed %s zone eras starting after %04d", count,
                      self.until_year)
